@@ -3,6 +3,8 @@ named temporaries and module-level constants (two of the most common
 behaviour-preserving rewrites)."""
 from __future__ import annotations
 
+from sa.model import clone as _clone
+
 import ast
 import copy
 
@@ -31,12 +33,12 @@ class _Expander(ast.NodeTransformer):
         if not isinstance(node.ctx, ast.Load):
             return node
         if node.id in self.consts:
-            return copy.deepcopy(self.consts[node.id])
+            return _clone(self.consts[node.id])
         if node.id in self.defs and node.id not in self.stack and \
                 len(self.stack) < self.depth:
             self.stack.append(node.id)
             try:
-                return self.visit(copy.deepcopy(self.defs[node.id]))
+                return self.visit(_clone(self.defs[node.id]))
             finally:
                 self.stack.pop()
         return node
@@ -60,7 +62,7 @@ def expand(fn: FunctionInfo, expr: ast.AST | None, depth: int = 6,
         if isinstance(n, ast.NamedExpr) and isinstance(n.target, ast.Name):
             defs.setdefault(n.target.id, n.value)
     out = _Expander(defs, module_consts(fn.module), depth).visit(
-        copy.deepcopy(expr))
+        _clone(expr))
     return ast.fix_missing_locations(out)
 
 
